@@ -386,7 +386,7 @@ def enrich_topology(draw, topo, eq, feats):
                 d1, d2 = draw(st.permutations(degs))[:2]
                 k1, k2 = draw(st.permutations(['per_degree_pch_out_db', 'per_degree_psd_out_mWperGHz',
                                                'per_degree_psd_out_mWperSlotWidth']))[:2]
-                vals = {'per_degree_pch_out_db': [-20, -18.5, -22], 'per_degree_psd_out_mWperGHz': [3.125e-4, 2.5e-4],
+                vals = {'per_degree_pch_out_db': [-20, -18.5, -22, 0, 0.0], 'per_degree_psd_out_mWperGHz': [3.125e-4, 2.5e-4],
                         'per_degree_psd_out_mWperSlotWidth': [2e-4, 1.5e-4]}
                 for d, k in ((d1, k1), (d2, k2)):
                     for kk in vals:
@@ -414,6 +414,12 @@ def enrich_topology(draw, topo, eq, feats):
                 p['per_degree_design_bands'] = {d: copy.deepcopy(_bands_for(eq, mb and draw(st.booleans())))
                                                 for d in chosen}
                 feats.add('per_degree_design_bands')
+                if draw(st.booleans()):
+                    # the optional spacing of a band (design on another grid than the SI one)
+                    for bands in p['per_degree_design_bands'].values():
+                        for b in bands:
+                            b['spacing'] = draw(st.sampled_from([37.5e9, 62.5e9, 75e9]))
+                    feats.add('per_degree_design_bands-spacing')
                 if len(chosen) > 1:
                     feats.add('per_degree_design_bands-several')
             if el.get('type_variety') == 'r2' and r2 and degs and ins and draw(st.booleans()):
